@@ -5,6 +5,7 @@ import SevenZ.Model.Assign
 import SevenZ.Spec.Format
 import SevenZ.Lemmas.Assign
 import SevenZ.Lemmas.Refine
+import SevenZ.Lemmas.Session
 import SevenZ.Lemmas.RefineFiles
 namespace SevenZ.C06
 open SevenZ
@@ -311,6 +312,14 @@ example : (match Spec.readTop [0x01, 0x05, 0x01, 0x11, 0x05, 0x00, 0x61, 0x00, 0
     result (the shape of every folder of a one-coder chain) -/
 theorem oneOut_single (f : Spec.SFolder) (hb : f.bindpairs = []) (hu : f.unpackSizes.length ≤ 1) : OneOut f := by
   intro i j hi hj _ _; omega
+
+/-- every linearly chained folder — coder i+1 fed by coder i, as py7zr and 7-Zip write their simple chains, of any
+    length — has exactly one result stream: the hypothesis `OneOut` of the theorems above holds for them -/
+theorem oneOut_linear (f : Spec.SFolder) (hb : f.bindpairs = linearPairs f.unpackSizes.length) : OneOut f := by
+  intro i j hi hj h1 h2
+  rw [hb, linearPairs_out] at h1 h2
+  simp only [Bool.not_eq_true', decide_eq_false_iff_not] at h1 h2
+  omega
 
 -- non-vacuity: an UnpackInfo with two folders (Copy; BCJ2-like complex coder omitted), folder CRCs partially defined
 example : (Spec.sUnpackInfo [0x0B, 0x02, 0x00, 0x01, 0x01, 0x00, 0x01, 0x21, 0x21, 0x01, 0x18,
